@@ -248,7 +248,7 @@ def timestamp(value: typing.Union[datetime.datetime, time.struct_time]) \
         if value.tzinfo is None or value.tzinfo.utcoffset(value) is None:
             # assume datetime object is UTC
             value = value.replace(tzinfo=datetime.timezone.utc)
-        return common.Struct.timestamp.pack(int(value.timestamp()))
+        return common.Struct.timestamp.pack(int(value.timestamp() // 1))
     if isinstance(value, time.struct_time):
         return common.Struct.timestamp.pack(calendar.timegm(value))
     raise TypeError(
